@@ -1,12 +1,12 @@
 package main
 
 import (
-	"bytes"
 	"encoding/json"
 	"fmt"
 
 	"github.com/ossrs/go-oryx-lib/amf0"
 	"verifharness/amf0x"
+	"verifharness/ld"
 	"verifharness/rp"
 )
 
@@ -40,7 +40,7 @@ func init() {
 }
 
 // conforms: the library decodes the specification's bytes to the specification's value.
-func conforms(d amf0x.Decoded, v *amf0x.Node, size int, want []byte, seed int) error {
+func conforms(d amf0x.Decoded, v *amf0x.Node, size int, want []byte, free []bool, seed int) error {
 	if !d.OK {
 		return fmt.Errorf("decoding the specification's encoding (%d bytes) failed: %v", len(want), d.Err)
 	}
@@ -54,8 +54,8 @@ func conforms(d amf0x.Decoded, v *amf0x.Node, size int, want []byte, seed int) e
 	if err != nil {
 		return fmt.Errorf("marshalling the decoded value failed: %v", err)
 	}
-	if !bytes.Equal(again, want) {
-		return fmt.Errorf("the decoded value does not marshal back to the specification's encoding: %s", rp.FirstDiff(again, want))
+	if df := ld.DiffFree(again, want, free); df != "" {
+		return fmt.Errorf("the decoded value does not marshal back to the specification's encoding: %s", df)
 	}
 	return nil
 }
@@ -89,7 +89,9 @@ func tree(c *rp.Ctx, i int, cs *amf0x.Case) rp.Result {
 			amf0x.Broken("case %d: strict array without the deviation's expectation", i)
 		}
 	}
-	want := amf0x.MustLD(cs.Enc, seed)
+	// free: the ECMA associative count - the specification's decoder ignores it (it reads pairs up to the object-end
+	// marker), so any value there "is decoded to the same value by an independent decoder"
+	want, free := amf0x.MustLDFree(cs.Enc, seed)
 	if len(want) != cs.Size {
 		amf0x.Broken("case %d: encoding has %d bytes, size says %d", i, len(want), cs.Size)
 	}
@@ -103,13 +105,14 @@ func tree(c *rp.Ctx, i int, cs *amf0x.Case) rp.Result {
 		if err != nil {
 			return rp.Fail(i, "MarshalBinary failed: %v", err)
 		}
-		if !bytes.Equal(got, want) {
-			what := "library bytes differ from the AMF0 specification's encoding: " + rp.FirstDiff(got, want)
+		if df := ld.DiffFree(got, want, free); df != "" {
+			what := "library bytes differ from the AMF0 specification's encoding: " + df
 			if !cs.HasStrict {
 				return rp.Fail(i, "%s", what)
 			}
-			if keyed := amf0x.MustLD(cs.EncKeyed, seed); !bytes.Equal(got, keyed) {
-				return rp.Fail(i, "%s; and from the StrictKeyed layout as well: %s", what, rp.FirstDiff(got, keyed))
+			keyed, kfree := amf0x.MustLDFree(cs.EncKeyed, seed)
+			if df := ld.DiffFree(got, keyed, kfree); df != "" {
+				return rp.Fail(i, "%s; and from the StrictKeyed layout as well: %s", what, df)
 			}
 			encDev = what + " (they are exactly the StrictKeyed layout: count, then (name, value) pairs)"
 		}
@@ -117,7 +120,7 @@ func tree(c *rp.Ctx, i int, cs *amf0x.Case) rp.Result {
 
 	// specification -> library: the library decodes the specification's encoding to v
 	d := amf0x.Decode(want)
-	if err := conforms(d, &cs.V, cs.Size, want, seed); err != nil {
+	if err := conforms(d, &cs.V, cs.Size, want, free, seed); err != nil {
 		if !cs.HasStrict {
 			return rp.Fail(i, "%v", err)
 		}
@@ -138,6 +141,13 @@ func tree(c *rp.Ctx, i int, cs *amf0x.Case) rp.Result {
 		what = encDev
 	}
 	return rp.Result{OK: false, Deviation: keyedDeviation, What: what, Nontriv: true}
+}
+
+func freeHead(free []bool, n int) []bool {
+	if free == nil {
+		return nil
+	}
+	return free[:n]
 }
 
 // readsKeyed probes whether the library reads strict arrays in the StrictKeyed layout (the vector
@@ -200,7 +210,7 @@ func markerCase(c *rp.Ctx, i int, cs *amf0x.Case) rp.Result {
 			// library that reads them owes an error for an unsupported marker among them
 			continue
 		}
-		b := amf0x.MustLD(it.Enc, 0)
+		b, free := amf0x.MustLDFree(it.Enc, 0)
 		d := amf0x.Decode(b)
 		what := ""
 		switch {
@@ -211,7 +221,7 @@ func markerCase(c *rp.Ctx, i int, cs *amf0x.Case) rp.Result {
 		case d.OK && d.Size != it.Size:
 			what = fmt.Sprintf("marker %#02x in position %q: the library's Size() is %d, the specification consumed %d of % x", m, it.W, d.Size, it.Size, b)
 		case d.OK:
-			if re, err := d.Value.MarshalBinary(); err != nil || !bytes.Equal(re, b[:it.Size]) {
+			if re, err := d.Value.MarshalBinary(); err != nil || ld.DiffFree(re, b[:it.Size], freeHead(free, it.Size)) != "" {
 				what = fmt.Sprintf("marker %#02x in position %q: the decoded value marshals to % x (%v), not to the % x it was read from", m, it.W, re, err, b[:it.Size])
 			}
 		}
